@@ -326,7 +326,13 @@ int main(int argc, char **argv)
                                         } else flags = rng_below(&R, 4);
                                         if (want_reject) {
                                                 uint32_t v = rng_below(&R, 3);
-                                                if (v == 0) flags = 4 + rng_below(&R, 60);
+                                                if (v == 0) {
+                                                        /* invalid flag words: small ones, and ones whose invalid bits are all high
+                                                           (a mask narrower than 32 bits would let those through) */
+                                                        uint32_t k = rng_below(&R, 4);
+                                                        flags = k < 2 ? (int) (4 + rng_below(&R, 60))
+                                                              : (int) ((1u << (8 + rng_below(&R, 24))) | (k == 2 ? rng_below(&R, 4) : rng_below(&R, 256) & ~3u));
+                                                }
                                                 else if (v == 1 && cx[c].st == ST_FRESH) flags = rng_below(&R, 2) ? ISAL_HASH_UPDATE : ISAL_HASH_LAST;
                                         }
                                 }
@@ -372,7 +378,7 @@ int main(int argc, char **argv)
                                 uint8_t *buf = guard_mode ? guard_alloc_al(len, 0) : straddle ? sbuf : malloc((size_t) len + 64 + 1);
                                 uint8_t *data = (guard_mode || straddle) ? buf : buf + align;
                                 xs_bytes(dseed, data, len);
-                                fprintf(fo, "S %d %d %u %llu\n", c, flags, len, (unsigned long long) dseed);
+                                fprintf(fo, "S %d %u %u %llu\n", c, (unsigned) flags, len, (unsigned long long) dseed);
                                 /* expected verdict by the API contract */
                                 uint32_t st0 = FLD32(h->obj, A->off_status);
                                 int rej = (flags & ~3) || (st0 & ISAL_HASH_CTX_STS_PROCESSING) ||
